@@ -86,6 +86,10 @@ const WITNESSES: &[(&str, &str, &str)] = &[
     ("c32_dup_implements.json", "C32-object-extension-repeats-implements", "more than once"),
     ("c32_subtype.json", "C32-interface-field-type-not-subtype", "is not a proper subtype"),
     ("c32_required.json", "C32-required-input-field-missing-in-generated-value", "the required field"),
+    // no finding: an input on which the generated document has a fragment spread chain of depth 3
+    // (operation -> F3 -> F2 -> F1, each fragment defined before the one that spreads it); taken from
+    // the demonstration of seeded change C32-m1, which no enumerated family reaches
+    ("c32_fragment_chain.json", "-", "-"),
 ];
 
 /// (index, mode) of the supplementary low-entropy sequence whose generated document is invalid on
@@ -468,7 +472,7 @@ fn main() {
     }
     // members of the supplementary sequence on which the two open findings show (recorded by index)
     for (idx, mode) in KNOWN_LOW_ENTROPY {
-        for (_, id, class) in &WITNESSES[1..] {
+        for (_, id, class) in &WITNESSES[1..3] {
             ctx.witnesses.push((low_entropy_input(*idx, *mode), *id, *class, chk.known.is_open(id)));
         }
     }
@@ -580,7 +584,7 @@ fn main() {
         "cross-process determinism (hash seeds) is C22's subject; here two in-process runs are compared".into(),
         "arbitrary::Error::IncorrectFormat (the generator declines the bytes) is accepted like 'input exhausted'; any other error is a violation".into(),
         "a generated document that nests deeper than apollo-parser's default recursion limit (500), or whose only diagnostics are the validator's RecursionLimitError, is not judged: those limits are safety settings, not rules of the language".into(),
-        "the witness family consists of three fixed inputs found by an independent random search (not by this enumeration); it is a regression set, not part of the exhaustive claim".into(),
+        "the witness family consists of three fixed inputs found by an independent random search (not by this enumeration) and one taken from the demonstration of a seeded change (deep fragment spread chain); it is a regression set, not part of the exhaustive claim".into(),
     ];
     let ctx_ref = &ctx;
     chk.finish(&|case: &Value| {
